@@ -350,3 +350,20 @@ LEVEL_TEXT += _ADD7
 _ADD9 = ' R12.1i: the tag is read as value[<field>] with the configured field string as the single key.'
 EXPLANATION += _ADD9
 LEVEL_TEXT += _ADD9
+
+
+_run_before_r5 = run
+
+
+def run(repo, rep, tier):  # noqa: F811 -- round-5 shape rules appended to the rules above
+    _run_before_r5(repo, rep, tier)
+    if getattr(rep, "borrowed", False):
+        return
+    from ..core import round5 as _r5
+    _r5.annotation_scans(repo, rep, "R09.8")
+    rep.floor("R09.8", 20)
+
+
+_ADDR5B = ' Borrowed: R09.8: isinstance tests for the Annotated markers (Alias, Discriminator, JSON Schema constraints) are applied to the variable of a scan over the whole metadata sequence, so a marker is honoured at any position.'
+EXPLANATION += _ADDR5B
+LEVEL_TEXT += _ADDR5B
